@@ -18,6 +18,18 @@ CLAIMED = {
         'technique': 'Lean 4 proof (induction on fuel/chain) + differential correspondence of the executable model',
         'design_ref': '§5 C01',
     },
+    'C07': {
+        'text': ('Lean theorems: whatever AlgebraicReductionRule.apply returns (any chain length, any operands, any '
+                 'context) has no adjacent pair on which a registered rule still fires (loop invariant of the scan: '
+                 'step-back-by-one, restart-at-0, advance) and at most one scalar operator; the documented patterns '
+                 'are proved not irreducible, so they cannot survive anywhere.  The form of reduce() is compared with '
+                 'the executable model for every pattern planted at every position of random contexts, and the '
+                 'normal-form predicate (incl. scalar side and idempotence) is evaluated on the implementation.'),
+        'note': ('Trusted: Lean kernel + standard axioms; encoder/translator; registry order pinned by a kernel-checked '
+                 'table theorem.  The side on which the scalar ends up is checked on the implementation only.'),
+        'technique': 'Lean 4 proof (loop invariant by induction on fuel) + differential correspondence of reduce() form',
+        'design_ref': '§5 C07',
+    },
 }
 
 ALL = [f'C{i:02d}' for i in range(1, 21)]
